@@ -185,13 +185,37 @@ def body_rare_safe(case):
         BB.BADS._get_target_from_gp_ = orig_t
 
 
+N_LONG = {"quick": 32, "thorough": 320}
+
+
+def body_long(subseed):
+    """Default-budget runs on the smooth family of C06 (all three box geometries): long trajectories reach numerical
+    corner cases of the GP that the short generated runs do not."""
+    from . import C06
+
+    p = C06.problem(subseed)
+    v = []
+    try:
+        C06.run_problem(p)
+    except Exception as e:  # noqa: BLE001
+        info = harness.exc_info(e)
+        v.append(viol("crash:optimize", f"default-option run on a smooth quadratic (D={p['D']}, {p['variant']} box, sub-seed {p['subseed']}): "
+                      f"{info['type']}: {info['msg']} @ {info['site']}\n{info['tb'][-500:]}", site=info["site"], exc_type=info["type"]))
+    return dict(violations=v, labels=["long", "long:" + p["variant"], f"long:D={p['D']}"], nontrivial=p["D"] >= 2, oracle_evals=1,
+                sample=dict(subseed=p["subseed"], D=p["D"], variant=p["variant"]))
+
+
 def plan(tier):
-    return [("runs", 16), ("rare", 16)]
+    return [("runs", 16), ("rare", 16), ("long", 16)]
 
 
 def run_part(res, part, tier, seed, shard, nshards):
     prof = PROFILE if tier == "quick" else PROFILE_T
-    if part == "runs":
+    if part == "long":
+        from hypothesis import strategies as st
+        engine.hyp_sweep(res, st.integers(0, 2**32 - 1), body_long, runlevel.shard_count(N_LONG[tier], shard, nshards), seed * 1000 + 600 + shard,
+                         case_timeout=1800)
+    elif part == "runs":
         runlevel.sweep(res, prof, N[tier], seed, shard, nshards, body)
     else:
         runlevel.sweep(res, prof, N_RARE[tier], seed + 7919, shard, nshards, body_rare_safe,
@@ -200,6 +224,8 @@ def run_part(res, part, tier, seed, shard, nshards):
 
 def minimise(part, tier, sig, case, seed):
     mr = 12 if tier == "quick" else 40
+    if part == "long":
+        return {"case": case, "note": "problem sub-seed (a single integer)"}
     if part == "runs":
         return runlevel.field_minimise(case, sig, body, max_runs=mr)
 
@@ -210,6 +236,8 @@ def minimise(part, tier, sig, case, seed):
 
 
 def replay(part, case):
+    if part == "long":
+        return body_long(case if isinstance(case, dict) else int(case))["violations"]
     if part == "rare":
         return runlevel.replay_body(body_rare_safe, case)
     return runlevel.replay_body(body, case)
